@@ -132,6 +132,9 @@ def campaign(c):
             elif k == 3: pool.append('eth::frame("|000000000001|", "|000000000002|", "|%s|");' % ('00' * r.choice([0, 1, 16, 61])))
             elif k == 4: pool.append('vx.encap(dns::host(1.2.3.4, "%s"%s));' % (r.choice(['aaa.example', 'bbb.example']), ''.join(', 10.0.0.%d' % (1 + r.below(200)) for _ in range(r.below(4)))))
             else: pool.append('tf.%s_message("|%s|");' % (r.choice(['client', 'server']), '00' * r.choice([1, 15, 29])))
+            if r.chance(1, 3) and not pool[-1].startswith('eth::frame'):
+                # the same value stored first and emitted through its name (once; a second emission is a statement of its own)
+                pool[-1] = 'let st%d_%d = %s\nst%d_%d;' % (i, len(pool), pool[-1], i, len(pool)); c.count('gap-stored')
         head = 'import ipv4;\nimport dns;\nimport eth;\nimport vxlan;\nlet vx = vxlan::session(1.1.1.1:1, 2.2.2.2:4789);\nlet tf = ipv4::tcp::flow(1.2.3.4:5, 6.7.8.9:80);\n'
         for order in (pool, pool[::-1]):
             src = (head + '\n'.join(order) + '\n').encode()
